@@ -221,3 +221,12 @@ Definition legacy_rewrite (cluster expect col_pdh manifest : string) : lresult :
     else if (md5hex hashed ++ "+" ++ dec (N.of_nat (String.length hashed))) =? expect' then LOk out
     else LErr
   end.
+
+(* locators the legacy path can verify: no hints at all, or the shape SignedLocatorRe accepts; and no CR,
+   which its line scanner would strip *)
+Definition legacy_hints (hs : list string) : bool :=
+  match hs with [] => true | _ => match split_sig hs with Some _ => true | None => false end end.
+Definition no_cr (s : string) : bool := negb (has_char cr s).
+Definition legacy_stream (s : mstream) : bool :=
+  forallb (fun l => legacy_hints (l_hints l)) (s_locs s) && no_cr (s_name s) && forallb no_cr (s_files s).
+
